@@ -29,7 +29,8 @@ import (
 
 // ---- configuration: the state named by the property's anchors -------------------------------
 
-var trackedTypes = map[string]bool{"Scheduler": true, "runnerRef": true, "Server": true, "blobDownload": true, "blobUpload": true}
+var trackedTypes = map[string]bool{"Scheduler": true, "runnerRef": true, "Server": true, "blobDownload": true, "blobUpload": true,
+	"blobDownloadPart": true, "blobUploadPart": true}
 var trackedGlobals = map[string]bool{"intermediateBlobs": true, "blobDownloadManager": true, "blobUploadManager": true}
 
 // objects of these types exist once per server instance: their mutexes are "global"
@@ -38,6 +39,10 @@ var singletonTypes = map[string]bool{"Scheduler": true, "Server": true}
 // objects of these types are prepared and handed to their Run goroutine by exactly one
 // invocation (the sync.Map LoadOrStore winner): spawn order applies to their fields
 var forkOwners = map[string]bool{"blobDownload": true, "blobUpload": true}
+
+// element structs of an owner's slice: a goroutine spawned per iteration of `range x.Parts` works
+// on its own element (one thread per object for these classes)
+var elementOwners = map[string]bool{"blobDownloadPart": true, "blobUploadPart": true}
 
 var hbIDs = map[string]int{"holder": 1, "doneclose": 2}
 
@@ -103,6 +108,8 @@ type spawn struct {
 	class  string
 	// `go x.M(...)` with x of a forkOwners type: one such thread per object
 	ownerRecv bool
+	// spawned once per iteration of a range over a slice of elementOwners structs
+	perElement bool
 }
 
 type unit struct {
@@ -492,6 +499,13 @@ func (a *analyzer) prescanSpawns(u *unit) {
 		if kind != "" {
 			sp := &spawn{id: len(a.spawns) + 1, node: n, kind: kind, parent: u}
 			for _, s := range stack[:len(stack)-1] {
+				if rs, ok := s.(*ast.RangeStmt); ok {
+					if t := a.info.TypeOf(rs.X); t != nil {
+						if sl, ok := t.Underlying().(*types.Slice); ok && elementOwners[namedOf(sl.Elem())] {
+							sp.perElement = true
+						}
+					}
+				}
 				switch s.(type) {
 				case *ast.ForStmt, *ast.RangeStmt:
 					if sp.kill == nil {
@@ -1491,10 +1505,23 @@ func (w *walker) call(e *ast.CallExpr, mode string) {
 			}
 		}
 		w.selector(f, "read")
-		w.args(e.Args)
+		w.argsExt(e.Args)
 	default:
 		w.expr(fun)
 		w.args(e.Args)
+	}
+}
+
+// argsExt: arguments of a call into another package.  `&x` of a fresh local handed to such a
+// call (json Decode(&part)) fills the object; it is assumed not to publish it to another thread.
+func (w *walker) argsExt(args []ast.Expr) {
+	for _, x := range args {
+		if u, ok := x.(*ast.UnaryExpr); ok && u.Op == token.AND {
+			if id, ok := unparen(u.X).(*ast.Ident); ok && w.fresh[w.obj(id)] {
+				continue
+			}
+		}
+		w.expr(x)
 	}
 }
 
